@@ -4,8 +4,10 @@ model uses; the hand-transcribed decision functions are pinned.
 -/
 import CueVerif.Gen.C11
 import CueVerif.Model.Yaml
+import CueVerif.Bridge.C11Loops
 namespace CueVerif.Bridge.C11
 open CueVerif
+open CueVerif.Quote (Bytes decodeRune)
 
 theorem legacyStrings_eq : Gen.C11.legacyStrings = Yaml.legacyStrings := by decide
 theorem specialFloats_eq : Gen.C11.specialFloats = Yaml.specialFloats := by decide
@@ -25,24 +27,48 @@ theorem legacyStringsV3_eq : Gen.C11.legacyStringsV3 = Yaml.legacyStrings := by 
 theorem re_useQuoteV3_eq : Gen.C11.re_useQuoteV3 = Yaml.srcUseQuote := by decide
 theorem re_anyOctalV3_eq : Gen.C11.re_rxAnyOctalYaml11V3 = Yaml.srcAnyOctal := by decide
 
--- pins: internal/encoding/yaml/goccy/encode.go
-theorem pin_needsSingleQuoting : Gen.C11.pin_goccy_needsSingleQuoting = "76bef2f953dc4c07" := by decide
-theorem pin_singleQuoted : Gen.C11.pin_goccy_singleQuoted = "36f3c35fcec0a174" := by decide
-theorem pin_quoteScalar : Gen.C11.pin_goccy_quoteScalar = "f62b90089e8c0e73" := by decide
+/-! ### TRANSLATED functions (extract/lib_loops.go): the definition regenerated from the Go source
+on every run equals the model's function for ALL inputs (proofs: Bridge/C11Loops.lean).  The
+externs of a translated function (regexp matchers, tables, `unicode.IsPrint`, the UTF-8
+decoder, the lexer-reading `decodesAsNonString`, `strconv.Quote`) are instantiated with the
+model's counterparts; `P`, `lx`, `q` stay universally quantified. -/
+
+theorem needsSingleQuoting_eq (s : Bytes) : Gen.C11.needsSingleQuoting s = Yaml.needsSingleQuoting s :=
+  C11Loops.needsSingleQuoting_eq s
+theorem singleQuoted_eq (s : Bytes) : Gen.C11.singleQuoted s = Yaml.singleQuoted s := C11Loops.singleQuoted_eq s
+theorem yamlUnprintable_eq (P : Yaml.IsPrint) (s : Bytes) :
+    Gen.C11.yamlUnprintable decodeRune P s = Yaml.yamlUnprintable P s := C11Loops.yamlUnprintable_eq P s
+theorem blockLiteralSafe_eq (P : Yaml.IsPrint) (s : Bytes) :
+    Gen.C11.blockLiteralSafe decodeRune P s = Yaml.blockLiteralSafe P s := C11Loops.blockLiteralSafe_eq P s
+theorem shouldQuote_eq (P : Yaml.IsPrint) (lx : Yaml.Lex) (s : Bytes) :
+    Gen.C11.shouldQuote (fun x => Yaml.legacyStrings.contains x) Yaml.reUseQuote.matches Yaml.reAnyOctal.matches
+      (Yaml.decodesAsNonString lx) decodeRune P s = Yaml.shouldQuote P lx s := C11Loops.shouldQuote_eq P lx s
+theorem quoteScalar_eq (P : Yaml.IsPrint) (lx : Yaml.Lex) (q : Bytes → Bytes) (s : Bytes) :
+    Gen.C11.quoteScalar (fun x => Yaml.legacyStrings.contains x) Yaml.reUseQuote.matches Yaml.reAnyOctal.matches
+      (Yaml.decodesAsNonString lx) decodeRune P q s = (Yaml.quoteScalar P lx s).text q s :=
+  C11Loops.quoteScalar_eq P lx q s
+theorem token_codes : Gen.C11.token_ILLEGAL = Yaml.NumKind.illegal.code ∧ Gen.C11.token_INT = Yaml.NumKind.int.code ∧
+    Gen.C11.token_FLOAT = Yaml.NumKind.float.code := C11Loops.token_codes
+theorem numberKind_eq (s : Bytes) :
+    Gen.C11.numberKind Yaml.reYamlInt.matches Yaml.reYamlFloat.matches s = (Yaml.numberKind s).code :=
+  C11Loops.numberKind_eq s
+theorem yaml11OctalToCUE_eq (v : Bytes) : Gen.C11.yaml11OctalToCUE decodeRune v = Yaml.yaml11OctalToCUE v :=
+  C11Loops.yaml11OctalToCUE_eq v
+theorem shouldQuoteV3_eq (s : Bytes) :
+    Gen.C11.shouldQuoteV3 (fun x => Yaml.legacyStrings.contains x) Yaml.reUseQuote.matches s = Yaml.shouldQuoteV3 s :=
+  C11Loops.shouldQuoteV3_eq s
+
+-- pins (functions outside the translator's subset): internal/encoding/yaml/goccy/encode.go
 theorem pin_encodeScalar : Gen.C11.pin_goccy_encodeScalar = "3837b5b0de11071f" := by decide
-theorem pin_shouldQuote : Gen.C11.pin_goccy_shouldQuote = "f71cde17e0008591" := by decide
-theorem pin_yamlUnprintable : Gen.C11.pin_goccy_yamlUnprintable = "6aa7601e4d0338fe" := by decide
-theorem pin_blockLiteralSafe : Gen.C11.pin_goccy_blockLiteralSafe = "601759ffe29bd699" := by decide
 theorem pin_decodesAsNonString : Gen.C11.pin_goccy_decodesAsNonString = "fce33d44bc451f0c" := by decide
 theorem pin_isNumberTokenType : Gen.C11.pin_goccy_isNumberTokenType = "1f4ccb8487617f00" := by decide
 theorem pin_singleToken : Gen.C11.pin_goccy_singleToken = "5eb573f128974522" := by decide
 theorem pin_yamlNumber : Gen.C11.pin_goccy_yamlNumber = "51c3370d9e08cdcc" := by decide
 theorem pin_yamlIsNumber : Gen.C11.pin_goccy_yamlIsNumber = "5c1ee1a7a2dba153" := by decide
+theorem pin_stripBlankLinePadding : Gen.C11.pin_goccy_stripBlankLinePadding = "3539e521aed9ee58" := by decide
 theorem pin_quoteFlowUnsafe : Gen.C11.pin_goccy_quoteFlowUnsafe = "5e1154290a11d44a" := by decide
 -- pins: internal/encoding/yaml/goccy/decode.go
-theorem pin_numberKind : Gen.C11.pin_goccy_numberKind = "882968e85f30c09b" := by decide
 theorem pin_scalarString : Gen.C11.pin_goccy_decoder_scalarString = "e05d640919ced928" := by decide
-theorem pin_yaml11OctalToCUE : Gen.C11.pin_goccy_yaml11OctalToCUE = "f83ecee178aa43f2" := by decide
 theorem pin_intExpr : Gen.C11.pin_goccy_decoder_intExpr = "a90f71bd59409b7f" := by decide
 theorem pin_floatExpr : Gen.C11.pin_goccy_decoder_floatExpr = "b2b6a9a3407f811f" := by decide
 theorem pin_makeNum : Gen.C11.pin_goccy_decoder_makeNum = "436b7cab89d030f8" := by decide
@@ -53,7 +79,6 @@ theorem pin_float : Gen.C11.pin_goccy_decoder_float = "292b4870de4f8bd4" := by d
 theorem pin_label : Gen.C11.pin_goccy_decoder_label = "38008d1c57404de1" := by decide
 theorem pin_keyLabel : Gen.C11.pin_goccy_decoder_keyLabel = "10833b0a5340507c" := by decide
 -- pins: internal/encoding/yaml/{encode,decode}.go (yaml.v3 based implementation)
-theorem pin_v3_shouldQuote : Gen.C11.pin_yaml_shouldQuote = "e9e20bafa3217356" := by decide
 theorem pin_v3_encodeScalar : Gen.C11.pin_yaml_encodeScalar = "12b84cf514f0b345" := by decide
 theorem pin_v3_setNum : Gen.C11.pin_yaml_setNum = "cff38cd9a02c3e8f" := by decide
 theorem pin_v3_scalar : Gen.C11.pin_yaml_decoder_scalar = "0447bd4421c208ca" := by decide
